@@ -17,7 +17,7 @@
 -/
 import Cog.Closed.PrefixReplace
 import Cog.Closed.UnspecDup
-import Cog.Closed.Witness
+import Cog.Closed.Seq
 namespace Cog.Closed
 open Cog.IR Cog.Xform
 
@@ -55,26 +55,6 @@ theorem C05_replace_reference_preserves_closed (p : ReplaceReference.Params) (S 
   Replace.preserves_closed p S S' hc hside h
 
 /-! ## sequences -/
-
-/-- the side condition the property grants, per operation -/
-def side : NameOp → Schemas → Bool
-  | .replace p, S => Replace.side p S
-  | _, _ => true
-
-/-- the decidable hypotheses of the partial theorems, per operation -/
-def opOK : NameOp → Schemas → Bool
-  | .rename p, S => Rename.ok p S
-  | .pfx p, S => p.pfx == "" || Prefix.ok S
-  | .duplicate p, S => Duplicate.ok p S
-  | .unspec, S => Unspec.ok S
-  | .replace _, _ => true
-
-/-- a requirement holds before every step of the sequence -/
-def seqOK (req : NameOp → Schemas → Bool) : List NameOp → Schemas → Bool
-  | [], _ => true
-  | t :: ts, S => req t S && match t.run S with
-    | .ok S1 => seqOK req ts S1
-    | _ => true
 
 /-- FULL statement: every sequence of name-changing transformations (replace_reference only towards
     existing objects) keeps every reference resolving.  False: see the counterexamples below. -/
